@@ -106,10 +106,110 @@ def apalache_obs(ctx, verdict, name, exprs, cases, sigs, pipe_name, group=20, pe
                   "Next == UNCHANGED bad", "Ok == bad = {}", "===="]
         return vlib.apalache(ctx, "\n".join(lines), mod, timeout=timeout, extra_files={"ExactGeom.tla": spec})
     failing = set()
-    with ThreadPoolExecutor(max_workers=min(6, len(chunks) or 1)) as ex:
+    with ThreadPoolExecutor(max_workers=min(8, len(chunks) or 1)) as ex:
         for bad in ex.map(one, list(enumerate(chunks))):
             failing |= bad
     ctx.validated += len(exprs)
     for k in sorted(failing):
         verdict.add(pipe_name, sigs[k], cases[k], dict(expr=exprs[k][:400]))
     return failing
+
+
+# ------------------------------------------------------------------ seeded generators for the large-grid tiers
+def _gcd(a, b):
+    while b:
+        a, b = b, a % b
+    return abs(a)
+
+
+def lattice_on(r, a, b):
+    """A lattice point on the closed segment a-b (dimension-generic)."""
+    d = [y - x for x, y in zip(a, b)]
+    g = 0
+    for v in d:
+        g = _gcd(g, v)
+    if g == 0:
+        return list(a)
+    k = r.randrange(0, g + 1)
+    return [x + k * (v // g) for x, v in zip(a, d)]
+
+
+def rnd_pt(r, G, dim=2):
+    return [r.randrange(-G, G + 1) for _ in range(dim)]
+
+
+def seg_pairs(seed, n, grids=(1 << 10, 1 << 16, 1 << 20), dim=2):
+    """Biased pairs of segments [a, b, c, d] with a family label."""
+    r = random.Random(seed)
+    fams = ["random", "touch", "tee", "collinear-overlap", "collinear-touch", "collinear-apart", "parallel",
+            "axis-cross", "near-parallel", "degenerate", "point-on-long", "near-long"]
+    out = []
+    while len(out) < n:
+        G = r.choice(grids)
+        fam = fams[len(out) % len(fams)]
+        a, b = rnd_pt(r, G, dim), rnd_pt(r, G, dim)
+        if a == b:
+            continue
+        d = [y - x for x, y in zip(a, b)]
+        if fam == "random":
+            c, e = rnd_pt(r, G, dim), rnd_pt(r, G, dim)
+        elif fam == "touch":
+            c, e = r.choice([a, b])[:], rnd_pt(r, G, dim)
+        elif fam == "tee":
+            c, e = lattice_on(r, a, b), rnd_pt(r, G, dim)
+        elif fam in ("collinear-overlap", "collinear-touch", "collinear-apart"):
+            g = 0
+            for v in d:
+                g = _gcd(g, v)
+            u = [v // g for v in d]
+            if fam == "collinear-overlap":
+                k1, k2 = r.randrange(-g, 2 * g + 1), r.randrange(0, g + 1)
+            elif fam == "collinear-touch":
+                k1, k2 = r.choice([0, g]), r.randrange(-2 * g, 3 * g + 1)
+            else:
+                k1, k2 = g + 1 + r.randrange(0, g + 1), 2 * g + 2 + r.randrange(0, g + 1)
+            c, e = [x + k1 * v for x, v in zip(a, u)], [x + k2 * v for x, v in zip(a, u)]
+        elif fam == "parallel":
+            off = rnd_pt(r, max(2, G // 64), dim)
+            k = r.choice([1, 1, 2, -1])
+            c = [x + o for x, o in zip(a, off)]
+            e = [x + k * v for x, v in zip(c, d)]
+        elif fam == "axis-cross":
+            ax = r.randrange(2)
+            b = a[:]
+            b[ax] = a[ax] + r.randrange(1, 2 * G)
+            m = [(x + y) // 2 for x, y in zip(a, b)]
+            off = rnd_pt(r, G, dim)
+            c = [x + o for x, o in zip(m, off)]
+            e = [x - o + r.randrange(-3, 4) for x, o in zip(m, off)]
+        elif fam == "near-parallel":
+            a = [0] * dim
+            a[0] = -G
+            b = [0] * dim
+            b[0] = G
+            h = r.randrange(1, 9)
+            c = [-G, -h] + [r.randrange(-3, 4) for _ in range(dim - 2)]
+            e = [G, h + r.randrange(0, 2)] + [r.randrange(-3, 4) for _ in range(dim - 2)]
+            sh = rnd_pt(r, G // 8 + 1, dim)
+            a, b, c, e = [[x + s for x, s in zip(p, sh)] for p in (a, b, c, e)]
+        elif fam == "degenerate":
+            c = rnd_pt(r, G, dim)
+            e = c[:]
+            if r.randrange(3) == 0:
+                c = e = lattice_on(r, a, b)
+        elif fam == "point-on-long":
+            c = lattice_on(r, a, b)
+            e = c[:]
+        else:  # near-long: a point one step off a long segment, as a zero-length or tiny second segment
+            c = lattice_on(r, a, b)
+            c[r.randrange(dim)] += r.choice([-1, 1])
+            e = c[:] if r.randrange(2) else [x + r.randrange(-2, 3) for x in c]
+        out.append(dict(fam=fam, seg=[a, b, c, e]))
+    return out
+
+
+def obs_ints(strs_in, strs_out):
+    """Scale the exact 'm:e' strings of one observation (inputs, outputs) to integers by a common power of two."""
+    fr = [parse_exact(s) for s in strs_in + strs_out]
+    ints, k = scale_ints(fr)
+    return ints[:len(strs_in)], ints[len(strs_in):], k
